@@ -196,3 +196,75 @@ func GenTree(r *hx.Rng) []byte {
 // ModelledLeaves lists the leaf kinds GenLeaf knows.
 var GenKinds = []string{"ftyp", "styp", "free", "skip", "mdat", "mfhd", "tfhd", "tfdt", "trun", "mvhd", "tkhd", "sidx",
 	"trex", "mdhd", "hdlr", "stts"}
+
+// Exhaustive returns well-formed boxes covering EVERY combination of the optional-field flag bits of the
+// boxes that have them (trun: 6 bits x version 0/1 x 0,1,3 samples; tfhd: 7 bits; tfdt, sidx, mvhd, tkhd,
+// mdhd: both versions; sidx 0..2 references), with non-zero field values.
+func Exhaustive() [][]byte {
+	var out [][]byte
+	trunBits := []uint32{1, 4, 0x100, 0x200, 0x400, 0x800}
+	for m := 0; m < 64; m++ {
+		var fl uint32
+		for i, b := range trunBits {
+			if m&(1<<uint(i)) != 0 {
+				fl |= b
+			}
+		}
+		for _, ver := range []byte{0, 1} {
+			for _, n := range []int{0, 1, 3} {
+				body := Cat(vf(ver, fl), U32(uint32(n)))
+				if fl&1 != 0 {
+					body = append(body, U32(0x70+uint32(n))...)
+				}
+				if fl&4 != 0 {
+					body = append(body, U32(0x02000000)...)
+				}
+				for i := 0; i < n; i++ {
+					for k, b := range []uint32{0x100, 0x200, 0x400, 0x800} {
+						if fl&b != 0 {
+							body = append(body, U32(uint32(1000*(k+1)+i))...)
+						}
+					}
+				}
+				out = append(out, Box("trun", body))
+			}
+		}
+	}
+	tfhdBits := []uint32{1, 2, 8, 16, 32, 0x10000, 0x20000}
+	for m := 0; m < 128; m++ {
+		var fl uint32
+		for i, b := range tfhdBits {
+			if m&(1<<uint(i)) != 0 {
+				fl |= b
+			}
+		}
+		body := Cat(vf(0, fl), U32(7))
+		if fl&1 != 0 {
+			body = append(body, U64(0x100000001)...)
+		}
+		for k, b := range []uint32{2, 8, 16, 32} {
+			if fl&b != 0 {
+				body = append(body, U32(uint32(11+k))...)
+			}
+		}
+		out = append(out, Box("tfhd", body))
+	}
+	out = append(out, Box("tfdt", Cat(vf(0, 0), U32(77))), Box("tfdt", Cat(vf(1, 0), U64(1<<40))))
+	for n := 0; n < 3; n++ {
+		refs := []byte{}
+		for i := 0; i < n; i++ {
+			refs = Cat(refs, U32(0x80000000|uint32(100+i)), U32(9000), U32(0x90000005))
+		}
+		out = append(out, Box("sidx", Cat(vf(0, 0), U32(1), U32(90000), U32(5), U32(6), U16(0), U16(uint16(n)), refs)))
+		out = append(out, Box("sidx", Cat(vf(1, 0), U32(1), U32(90000), U64(1<<33), U64(6), U16(0), U16(uint16(n)), refs)))
+	}
+	tail := Cat(U32(0x10000), U16(0x100), make([]byte, 10), unity, make([]byte, 24), U32(3))
+	out = append(out, Box("mvhd", Cat(vf(0, 0), U32(1), U32(2), U32(1000), U32(5000), tail)))
+	out = append(out, Box("mvhd", Cat(vf(1, 0), U64(1<<33), U64(2), U32(1000), U64(1<<34), tail)))
+	ttail := Cat(make([]byte, 8), U16(0), U16(1), U16(0x100), make([]byte, 2), unity, U32(640<<16), U32(360<<16))
+	out = append(out, Box("tkhd", Cat(vf(0, 7), U32(1), U32(2), U32(1), make([]byte, 4), U32(5000), ttail)))
+	out = append(out, Box("tkhd", Cat(vf(1, 7), U64(1<<33), U64(2), U32(1), make([]byte, 4), U64(1<<34), ttail)))
+	out = append(out, Box("mdhd", Cat(vf(0, 0), U32(1), U32(2), U32(48000), U32(5000), U16(0x55c4), U16(0))))
+	out = append(out, Box("mdhd", Cat(vf(1, 0), U64(1<<33), U64(2), U32(48000), U64(1<<34), U16(0x55c4), U16(0))))
+	return out
+}
